@@ -167,9 +167,9 @@ KeyModel(t, NGrids) ==
   CASE t.k = "scalar"   -> << <<"scalar", t.m>> >>
     [] t.k = "dense"    -> << <<"dense", t.a>> >>
     [] t.k = "sparse"   -> << <<"sparse", t.name, t.m, t.n, t.a>> >>
-    [] t.k = "var"      -> << <<"var", t.name, Ids(t.a, NGrids)>> >>
-    [] t.k = "mdvar"    -> << <<"mdvar", t.name, Ids(t.a, NGrids)>> >>
-    [] t.k = "tdarray"  -> << <<"tdarray", t.name, Ids(t.a, NGrids)>> >>
+    [] t.k = "var"      -> << <<"var", t.name, Ids(t.a, NGrids), t.ts, t.it>> >>
+    [] t.k = "mdvar"    -> << <<"mdvar", t.name, Ids(t.a, NGrids), t.ts, t.it>> >>
+    [] t.k = "tdarray"  -> << <<"tdarray", t.name, Ids(t.a, NGrids), t.ts>> >>
     [] t.k = "proj"     -> IF t.flag THEN << <<"proj", t.b, t.a, t.n, t.m>> >> ELSE << <<"proj", t.a, t.b, t.m, t.n>> >>
     [] t.k = "projlong" -> << <<"projlong", t.m, EdgeSwap(t.m, t.n)>> >>
     [] t.k = "op"       -> << <<t.name>> >> \o KeyModel(t.ch[1], NGrids) \o KeyModel(t.ch[2], NGrids)
